@@ -186,6 +186,9 @@ std::unique_ptr<NodeResult> GetRecordNode::evaluate(PSC::Context &ctx) {
         || (array != nullptr && array->type == PSC::DataType::POINTER))
         throw PSC::RuntimeError(token, ctx, "Pointers cannot be stored in random files");
 
+    if (variable != nullptr && variable->isConstant)
+        throw PSC::ConstAssignError(token, ctx, variable->name);
+
     if (variable != nullptr) {
         if (!file->getRecord(*variable, ctx))
             throw PSC::RuntimeError(token, ctx, "Failed to read data from random file");
